@@ -1,4 +1,7 @@
+#[cfg(not(o2o_verif))]
 use std::{collections::HashMap, iter::Peekable, slice::Iter};
+#[cfg(o2o_verif)]
+use {crate::verif_shim::HashMap, std::{iter::Peekable, slice::Iter}};
 
 use crate::{
     ast::{DataType, DataTypeMember, Enum, Field, Struct, Variant},
